@@ -273,8 +273,15 @@ def _run_write(case):
                     viols.append(V("C18:write:raised:%s:%s" % (type(exc).__name__, mk), "writing %s results with masks %s raised %s: %s" % (
                         "+".join(kinds), mk, type(exc).__name__, str(exc).split("\n")[0][:160]), **tag))
                     continue
+                ok = True
+                # the results that were written must not have been modified by the writer (they may be written or consumed again)
+                for nm, a in zip(names, arrays):
+                    now = p.commands[nm].result
+                    if (numpy.ma.getmaskarray(now) != numpy.ma.getmaskarray(a)).any() or not numpy.array_equal(numpy.ma.getdata(now)[~numpy.ma.getmaskarray(a)], a.data[~numpy.ma.getmaskarray(a)]):
+                        viols.append(V("C18:write:written-result-modified:%s" % mk, "%s changed while being written: missing cells now %r, were %r" % (
+                            nm, numpy.ma.getmaskarray(now).ravel().tolist(), numpy.ma.getmaskarray(a).ravel().tolist()), **tag))
+                        ok = False
                 with Dataset(os.path.join(work, "out.nc")) as ds:
-                    ok = True
                     for d in ("y", "x"):
                         if d not in ds.variables:
                             viols.append(V("C18:write:dimension-variable-missing", "dimension variable %s not written" % d, **tag))
